@@ -94,9 +94,9 @@ MUTANTS = [
     ("c16-sqlite-welcome-name-limit-stricter", ["C16", "C06"], [], [(SQL + "welcomes.rs", "validate_string_length(&welcome.group_name, MAX_GROUP_NAME_LENGTH, \"Group name\")", "validate_string_length(&welcome.group_name, MAX_GROUP_NAME_LENGTH / 2, \"Group name\")")]),
     ("c01-comparator-le", ["C01", "C07"], [], [(CORE + "epoch_snapshots.rs", "if candidate_ts < snapshot.applied_commit_ts {", "if candidate_ts <= snapshot.applied_commit_ts {")]),
     ("c01-id-tiebreak-le", ["C01", "C07"], [], [(CORE + "epoch_snapshots.rs", "if candidate_id.to_hex() < snapshot.applied_commit_id.to_hex() {", "if candidate_id.to_hex() <= snapshot.applied_commit_id.to_hex() {")]),
-    ("c03-no-eviction-return", ["C03"], [], [(CORE + "messages/commit.rs", """        if mls_group.own_leaf().is_none() {
+    ("c03-no-eviction-return", ["C03"], [], [(CORE + "messages/commit.rs", """        if !mls_group.is_active() {
             return self.handle_local_member_eviction(&group_id, event);
-        }""", """        if mls_group.own_leaf().is_none() {
+        }""", """        if !mls_group.is_active() {
             tracing::debug!("evicted");
         }""")]),
     ("c03-welcome-active", ["C03", "C16"], [], [(CORE + "welcomes.rs", "state: group_types::GroupState::Pending,", "state: group_types::GroupState::Active,")]),
@@ -664,8 +664,9 @@ where
 
         // 2. Validate minimum number of tags""", """        // 2. Validate minimum number of tags""")]),
     ("c03-evicted-group-stays-active", ["C03"], [], [(CORE + "messages/commit.rs", "                group.state = group_types::GroupState::Inactive;\n                self.save_group_record(group)?;", "                self.save_group_record(group)?;")]),
-    ("c03-export-after-eviction", ["C03"], [], [(CORE + "messages/commit.rs", """        // Check if the local member was removed by this commit
-        if mls_group.own_leaf().is_none() {
+    ("c03-export-after-eviction", ["C03"], [], [(CORE + "messages/commit.rs", """        // Check if the local member was removed by this commit. The MLS group's own state says so;
+        // the leaf at the own index does not: a member added by the same commit takes the vacated slot.
+        if !mls_group.is_active() {
             return self.handle_local_member_eviction(&group_id, event);
         }
 
@@ -675,7 +676,7 @@ where
         self.exporter_secret(&group_id)?;
 
         // Check if the local member was removed by this commit
-        if mls_group.own_leaf().is_none() {
+        if !mls_group.is_active() {
             return self.handle_local_member_eviction(&group_id, event);
         }
 """)]),
